@@ -7,6 +7,8 @@ CONSTANTS
   MaxFaults = 1000
   UnpubOn = FALSE
   TwoVersions = TRUE
+  Expiry = FALSE
+  KeepExpiredUnpublished = FALSE
   MaxSteps = 0
 INVARIANT OnePerSuffixPerTxn
 INVARIANT Stamped
